@@ -7,6 +7,7 @@
 package main
 
 import (
+	"strings"
 	"bufio"
 	"encoding/json"
 	"flag"
@@ -99,8 +100,32 @@ func regCheck(h *sh.H, idx uint64, tag string) {
 		Check: &structs.HealthCheck{Node: node, CheckID: "c1", Name: "c1", Status: api.HealthPassing, Notes: tag}}, idx)
 }
 
+// txnPrefix, when set, is an operation placed IN FRONT of the conditional operation inside the same transaction
+// (the conditional operation must then be judged against the state the transaction has reached, not the committed one)
+var txnPrefix *structs.TxnOp
+
 func txn1(h *sh.H, idx uint64, op *structs.TxnOp) string {
-	return boolReply(apply(h, structs.TxnRequestType, &structs.TxnRequest{Datacenter: "dc1", Ops: structs.TxnOps{op}}, idx))
+	ops := structs.TxnOps{op}
+	if txnPrefix != nil {
+		ops = structs.TxnOps{txnPrefix, op}
+	}
+	return boolReply(apply(h, structs.TxnRequestType, &structs.TxnRequest{Datacenter: "dc1", Ops: ops}, idx))
+}
+
+// writeOpFor returns the unconditional write of the adapter's entity as a transaction operation (nil: not a txn adapter)
+func writeOpFor(name, tag string) *structs.TxnOp {
+	switch {
+	case strings.HasPrefix(name, "txn-kv"):
+		return &structs.TxnOp{KV: &structs.TxnKVOp{Verb: api.KVSet, DirEnt: structs.DirEntry{Key: key, Value: []byte(tag)}}}
+	case strings.HasPrefix(name, "txn-node"):
+		return &structs.TxnOp{Node: &structs.TxnNodeOp{Verb: api.NodeSet, Node: structs.Node{Node: node, Address: "10.0.0.1", Meta: map[string]string{"tag": tag}}}}
+	case strings.HasPrefix(name, "txn-service"):
+		return &structs.TxnOp{Service: &structs.TxnServiceOp{Verb: api.ServiceSet, Node: node,
+			Service: structs.NodeService{ID: "w1", Service: "web", Port: 80, Meta: map[string]string{"tag": tag}}}}
+	case strings.HasPrefix(name, "txn-check"):
+		return &structs.TxnOp{Check: &structs.TxnCheckOp{Verb: api.CheckSet, Check: structs.HealthCheck{Node: node, CheckID: "c1", Name: "c1", Status: api.HealthPassing, Notes: tag}}}
+	}
+	return nil
 }
 
 func kvRead(h *sh.H) cellState {
@@ -421,6 +446,30 @@ func runHistory(a *adapter, hist []M, rec *recorder, hid int) {
 			post := a.read(h)
 			rec.emit(M{"cmd": M{"type": a.name, "class": class, "history": hist[:step]},
 				"parts": []M{part(a, pre, sup, idx, tag, reported, post, sh.Dump(h.Store()) != before)}})
+			// the same conditional operation as the SECOND operation of a transaction whose first operation writes the same
+			// entity: what it is compared with is the state inside the transaction (the entity exists, modified at this
+			// transaction's index); a transaction that fails leaves nothing of its first operation either
+			if w := writeOpFor(a.name, tag+"w"); w != nil && pre.exists && strings.HasPrefix(a.name, "txn-") && a.name != "txn-node-cas-with-id" {
+				for _, cl := range []string{"stale", "current"} {
+					idx += 2
+					pre2 := a.read(h)
+					if !pre2.exists {
+						break // the entity must exist before the transaction, so that a rolled-back transaction leaves it visible
+					}
+					sup2 := pre2.mi // "stale": the index the entity had before the transaction
+					if cl == "current" {
+						sup2 = idx // the index the first operation gives it
+					}
+					before2 := sh.Dump(h.Store())
+					txnPrefix = w
+					rep2 := a.cond(h, idx, sup2, tag+cl)
+					txnPrefix = nil
+					post2 := a.read(h)
+					inTxn := cellState{exists: true, mi: idx, tix: pre2.tix, tag: tag + "w"}
+					rec.emit(M{"cmd": M{"type": a.name, "class": "after-write-in-txn:" + cl, "history": hist[:step]},
+						"parts": []M{part(a, inTxn, sup2, idx, tag+cl, rep2, post2, sh.Dump(h.Store()) != before2)}})
+				}
+			}
 		}
 	}
 }
